@@ -277,6 +277,11 @@ func runLoop(c Case) []V {
 				vs.add("conn-reader-not-drained:ws/"+c.Cfg.Mode, "loopback %s, step %d message %s of [%s]: Read: %v", where, step, op.msg, seqString(c.Seq), err)
 				return vs.list
 			}
+			if strings.Contains(err.Error(), "read limited at") {
+				// deterministic: the back-end's default read limit (32 KiB) was not lifted by the library's dialer
+				vs.add("read-limit:"+c.Kind+"-"+c.Backend, "loopback %s, step %d message %s of [%s]: Read: %v", where, step, op.msg, seqString(c.Seq), err)
+				return vs.list
+			}
 			return append(vs.list, inc("step %d message %s: Read: %v", step, op.msg, err)...)
 		}
 		select {
